@@ -505,7 +505,7 @@ def quota_corpus(pid):
 
 def history_corpus(pid):
     """BOUNDED stand-in for the thread-local type memo (types/mod.rs, internal.rs: thread_local!/RefCell, outside both
-    tools): 8 (mutually) recursive / generic derived types (two of them with the same name in different modules, alone and in one message) are encoded and decoded in every order of up to 3 steps
+    tools): 8 (mutually) recursive / generic derived types (two of them with the same name in different modules, alone and in one message; and two local types of the same name AND path in different blocks, both encoded before either is decoded) are encoded and decoded in every order of up to 3 steps
     (plus type-derivation-only steps) on a fresh thread; every step must round-trip and produce the same bytes as the
     same step run alone on a fresh thread."""
     import itertools
@@ -513,7 +513,7 @@ def history_corpus(pid):
     exe, err = build_replay()
     if not exe:
         return {"undecided": [f"bounded stand-in: the real crate does not build: {err}"], "failures": []}
-    kinds = "TKLWVEABP"
+    kinds = "TKLWVEABPQ"
     alone = {}
     cmds = [f"h {k}" for k in kinds]
     perms = ["".join(p) for r in (2, 3) for p in itertools.permutations(kinds, r)]
